@@ -7,7 +7,8 @@ from mc import alphabet as A, refmodel as R
 from mc.core import Out, inner
 from mc.props import _c17_ref as T
 from mc.props._c17_util import (DIMS, TOL, Chk, coeffs_fast, dist, hs_of_commutator_fast, hs_of_kraus_fast,
-                                mat_from_coeffs_fast, proportional, ref_channel_verdict, sysinfo, vec_proportional)
+                                mat_from_coeffs_fast, proportional, ref_channel_verdict, sysinfo, vec_proportional,
+                                second_system, check_bound_system)
 
 
 def perm_label(ids):
@@ -50,6 +51,13 @@ def check_gate(out, name, tag, sysnames, ids, do_gate_mat=True, do_el=True, do_e
                 "unitary matrix is not the textbook unitary (up to a global phase); defect %g" % proportional(U, Uref))
     if okG:
         out.count("gate_generated")
+
+        def regen():
+            c2 = second_system(tag, sysnames)
+            ok2, G2 = A.call(gt.generate_gate_from_gate_name, name, c2, idl)
+            return ok2, c2, G2
+        check_bound_system(kg, sg("gate"), G, c, regen, lambda g: g.hs)
+        out.count("second_system_generations")
         kg.close(sg("gate.hs-vs-textbook"), G.hs, Mref)
         if okU:
             kg.close(sg("gate.hs-vs-unitary_mat"), G.hs, hs_of_kraus_fast([np.asarray(U, dtype=np.complex128)], Bmat))
